@@ -98,7 +98,7 @@ _RING_REAL = ["ring.Lifecycler", "ring.BasicLifecycler + InstanceRegister / Leav
 _RING_STUB = ["kv seam (worlds/simkv): per-actor kv.Client wrapper with scheduling points, fault injection, commit recording, harness-owned WatchKey", "token generators (tiny alphabet + seeded)", "operator (forget, wipe)", "os for the tokens file (simrt/simos, in-memory disk)"]
 PROPS["C08"] = {
     "world": "ring", "level": "exploration", "quick_s": 25, "thorough_s": 600,
-    "rule": "one evaluation = one simulated history (up to 5 virtual minutes) of 1..5 lifecyclers (classic and basic) on one store: starts, external state changes, read-only toggles, token claims, stops with/without unregistering, restarts, operator forget, KV error windows, lost acks, forced retries, ring wipes, stalls and clock advances; every committed write is attributed to its writer and checked; non-trivial = at least two lifecyclers and at least one CAS retried because of contention; distinct = distinct released-task/action sequence hash among non-trivial runs",
+    "rule": "one evaluation = one simulated history (up to 5 virtual minutes) of 1..5 lifecyclers (classic and basic) on one store: starts, external state changes, read-only toggles, token claims, stops with/without unregistering, restarts, operator forget, KV error windows, lost acks, forced retries, ring wipes, stalls and clock advances; every committed write is attributed to its writer and checked; a second, directed scenario ('restart-entry-forgotten', every fourth run) restarts an instance whose LEAVING entry (with or without tokens) is forgotten by the operator while the restart's first write is in flight, then switches it to ACTIVE from outside and asks for its readiness; non-trivial = at least two lifecyclers and at least one CAS retried because of contention (directed scenario: the instance was ACTIVE without tokens in the ring when asked); distinct = distinct released-task/action sequence hash among non-trivial runs",
     "real": _RING_REAL, "stub": _RING_STUB,
     "assumptions": _ASSUME_COMMON + ["heartbeat liveness is only demanded in windows where the store accepts the writer's calls and the scheduler did not stall it", "tokens inherited from the ring or a tokens file are exempt from the 'not visible as another instance's token' clause, as the statement says"],
     "level_text": "seeded exploration of lifecycler histories with per-commit attribution (diff of in/out restricted to the writer's entry, state edges, timestamps, registration time, tokens at activation, readiness); sampling, not proof",
